@@ -30,7 +30,10 @@ def make_loss(kind, target, nan_p, phase):
     import jax.numpy as jnp
 
     def loss(params, transform, rng):
-        p = transform.apply(params)["p"]
+        tp = transform.apply(params)
+        p = tp["p"]
+        if "q" in tp:  # a second leaf of another shape (scalar): the parameter pytree is not a single array
+            p = jnp.concatenate([p, jnp.reshape(tp["q"], (1,))])
         d = p - target
         if kind == "convex":
             v = jnp.sum(d**2)
@@ -48,7 +51,7 @@ def make_loss(kind, target, nan_p, phase):
             v = jnp.where(jax.random.uniform(rng) < nan_p, jnp.nan, v)
         if phase["all_nan"]:
             v = v * jnp.nan
-        jax.debug.callback(_rec, params["p"], v)
+        jax.debug.callback(_rec, p, v)
         return v
 
     return loss
@@ -103,9 +106,17 @@ def run_cem(cfg, rnd, stats):
     dim = cfg["dim"]
     umin = onp.array(cfg["umin"])
     umax = onp.array(cfg["umax"])
-    solver = CEMSolver.init({"p": jnp.array(umin, jnp.float32)}, {"p": jnp.array(umax, jnp.float32)}, num_samples=cfg["pop"], evolution_smoothing=cfg["smooth"],
-                            elite_portion=cfg["elite"])
-    state = solver.init_state({"p": jnp.array((umin + umax) / 2, jnp.float32)})
+    two = bool(cfg.get("two_leaf")) and len(umin) >= 2
+
+    def tree(v):
+        v = jnp.asarray(v, jnp.float32)
+        return {"p": v[:-1], "q": v[-1]} if two else {"p": v}
+
+    def flat(t):
+        return onp.concatenate([onp.asarray(t["p"], float).ravel(), onp.asarray(t["q"], float).ravel()]) if two else onp.asarray(t["p"], float)
+
+    solver = CEMSolver.init(tree(umin), tree(umax), num_samples=cfg["pop"], evolution_smoothing=cfg["smooth"], elite_portion=cfg["elite"])
+    state = solver.init_state(tree((umin + umax) / 2))
     phase = dict(all_nan=False)
     loss = make_loss(cfg["loss"], jnp.array(cfg["target"], jnp.float32), cfg["nan_p"], phase)
     key = jax.random.PRNGKey(cfg["seed"])
@@ -127,11 +138,11 @@ def run_cem(cfg, rnd, stats):
         history += gen
         stats["generations_checked"] += 1
         prev = float(state.bestsofar_loss)
-        v, best = check_generation(gen, umin, umax, prev, best, new_state.bestsofar_loss, new_state.bestsofar["p"], stats, "cem")
+        v, best = check_generation(gen, umin, umax, prev, best, new_state.bestsofar_loss, flat(new_state.bestsofar), stats, "cem")
         V += [dict(x, generation=it) for x in v]
         ls = onp.array([l for _, l in gen])
         if onp.isfinite(float(new_state.bestsofar_loss)):
-            ok, same = attained(new_state.bestsofar["p"], float(new_state.bestsofar_loss), history)
+            ok, same = attained(flat(new_state.bestsofar), float(new_state.bestsofar_loss), history)
             if not ok:
                 V.append(dict(clause="best_candidate_does_not_attain_best_loss", generation=it, best_loss=float(new_state.bestsofar_loss), losses_of_that_candidate=same))
         if onp.isnan(ls).any() and onp.isfinite(ls).any() or len(set(ls[onp.isfinite(ls)].tolist())) < int(onp.isfinite(ls).sum()):
@@ -141,10 +152,10 @@ def run_cem(cfg, rnd, stats):
         order = onp.argsort(eff, kind="stable")
         if n_el >= 1 and n_el < len(eff) and eff[order[n_el - 1]] < eff[order[n_el]] and onp.isfinite(eff[order[n_el - 1]]):
             cands = onp.array([c for c, _ in gen])
-            exp_mean = cfg["smooth"] * onp.asarray(state.mean["p"], float) + (1 - cfg["smooth"]) * cands[order[:n_el]].mean(axis=0)
+            exp_mean = cfg["smooth"] * flat(state.mean) + (1 - cfg["smooth"]) * cands[order[:n_el]].mean(axis=0)
             stats["elite_means_checked"] += 1
-            if not onp.allclose(onp.asarray(new_state.mean["p"], float), exp_mean, rtol=1e-4, atol=1e-5):
-                V.append(dict(clause="next_mean_not_smoothed_mean_of_lowest_loss_elites", generation=it, got=onp.asarray(new_state.mean["p"]).tolist(), expected=exp_mean.tolist(),
+            if not onp.allclose(flat(new_state.mean), exp_mean, rtol=1e-4, atol=1e-5):
+                V.append(dict(clause="next_mean_not_smoothed_mean_of_lowest_loss_elites", generation=it, got=flat(new_state.mean).tolist(), expected=exp_mean.tolist(),
                               nan_in_generation=int(onp.isnan(ls).sum())))
         state = new_state
         if len(V) > 3:
@@ -152,7 +163,7 @@ def run_cem(cfg, rnd, stats):
     # jitted cem(): final best == smallest finite loss of the whole run
     phase["all_nan"] = False
     LOG.clear()
-    st0 = solver.init_state({"p": jnp.array((umin + umax) / 2, jnp.float32)})
+    st0 = solver.init_state(tree((umin + umax) / 2))
     fin_state, all_losses = jax.jit(lambda s, k_: cem(loss, solver, s, Identity.init(), max_steps=cfg["iters"], rng=k_, verbose=False))(st0, jax.random.PRNGKey(cfg["seed"] + 1))
     jax.block_until_ready(fin_state)
     jax.effects_barrier()
@@ -162,7 +173,7 @@ def run_cem(cfg, rnd, stats):
         mn = float(onp.nanmin(onp.where(onp.isfinite(al), al, onp.nan)))
         if not abs(float(fin_state.bestsofar_loss) - mn) <= 1e-6 * max(1, abs(mn)):
             V.append(dict(clause="jitted_cem_final_best_not_smallest_finite_loss", reported=float(fin_state.bestsofar_loss), smallest=mn))
-        ok, same = attained(fin_state.bestsofar["p"], float(fin_state.bestsofar_loss), list(LOG))
+        ok, same = attained(flat(fin_state.bestsofar), float(fin_state.bestsofar_loss), list(LOG))
         if not ok and onp.isfinite(float(fin_state.bestsofar_loss)):
             V.append(dict(clause="jitted_cem_best_candidate_does_not_attain", losses_of_that_candidate=same))
         per_gen_best = onp.minimum.accumulate(onp.where(onp.isfinite(al), al, onp.inf).min(axis=1))
@@ -180,8 +191,14 @@ def run_evo(cfg, rnd, stats):
     umin = onp.array(cfg["umin"])
     umax = onp.array(cfg["umax"])
     try:
-        solver = EvoSolver.init({"p": jnp.array(umin, jnp.float32)}, {"p": jnp.array(umax, jnp.float32)}, strategy=cfg["strategy"], strategy_kwargs=dict(popsize=cfg["pop"]))
-        state = solver.init_state({"p": jnp.array((umin + umax) / 2, jnp.float32)}, rng=jax.random.PRNGKey(cfg["seed"]))
+        two = bool(cfg.get("two_leaf")) and len(umin) >= 2
+
+        def tree(v):
+            v = jnp.asarray(v, jnp.float32)
+            return {"p": v[:-1], "q": v[-1]} if two else {"p": v}
+
+        solver = EvoSolver.init(tree(umin), tree(umax), strategy=cfg["strategy"], strategy_kwargs=dict(popsize=cfg["pop"]))
+        state = solver.init_state(tree((umin + umax) / 2), rng=jax.random.PRNGKey(cfg["seed"]))
     except Exception as e:
         return None, f"strategy refused: {type(e).__name__}: {e}"[:120]
     pop = solver.strategy.popsize
@@ -242,7 +259,7 @@ def run_evo(cfg, rnd, stats):
         object.__setattr__(solver.strategy, "tell", orig_tell)
     except Exception:
         pass
-    st0 = solver.init_state({"p": jnp.array((umin + umax) / 2, jnp.float32)}, rng=jax.random.PRNGKey(cfg["seed"]))
+    st0 = solver.init_state(tree((umin + umax) / 2), rng=jax.random.PRNGKey(cfg["seed"]))
     fin_state, _, all_losses = jax.jit(lambda s, k_: evo(loss, solver, s, Identity.init(), max_steps=cfg["iters"], rng=k_, verbose=False))(st0, jax.random.PRNGKey(cfg["seed"] + 9))
     jax.block_until_ready(fin_state)
     jax.effects_barrier()
@@ -277,7 +294,7 @@ def run_case(case):
                    smooth=round(rnd.choice([0.0, 0.1, 0.5, 0.9]), 2), loss=rnd.choice(["convex", "multimodal", "plateau", "plateau", "constant", "halfspace"]),
                    nan_p=rnd.choice([0.0, 0.0, 0.3, 0.7, 0.9]), target=[round(rnd.uniform(a, b), 3) for a, b in zip(lo, hi)], iters=iters,
                    all_nan_iters=sorted(rnd.sample(range(1, iters), rnd.choice([0, 0, 1, 2]))), seed=rnd.randrange(1 << 20),
-                   strategy=rnd.choice(["CMA_ES", "OpenES", "SimpleGA", "DE", "PSO", "Sep_CMA_ES"]))
+                   strategy=rnd.choice(["CMA_ES", "OpenES", "SimpleGA", "DE", "PSO", "Sep_CMA_ES"]), two_leaf=(rnd.random() < 0.4))
         if rnd.random() < 0.2:
             cfg["all_nan_iters"] = sorted(set(cfg["all_nan_iters"]) | {0})  # NaN-only first generation: no finite best yet
         st = Counter()
